@@ -9,7 +9,7 @@
    zero-amount AddFT (touch) only if [tch = true].  [good s] = the two invariants of reachable states. *)
 From stdpp Require Import gmap.
 From V.Base Require Import Hex BigEndian.
-From V.C04 Require Import Model Harness Sim Undo Roundtrip Steps Nested Observe Refute Root RootHash Cong Totality.
+From V.C04 Require Import Model Harness Sim Undo Roundtrip Steps Nested Observe Refute Root RootHash Cong Totality Txs.
 Local Open Scope N_scope.
 
 (* Headline.  From any state satisfying the reachable-state invariants, with Proposal002 active: after
@@ -161,6 +161,47 @@ Print Assumptions C04_continuation_root_hash.
 Theorem C04_step_congruence : forall o x y, sim true x y -> op_ok true false o -> sim true (fst (step o x)) (fst (step o y)).
 Proof. exact step_cong. Qed.
 Print Assumptions C04_step_congruence.
+
+(* ---------- several transactions on one AccountDB ---------- *)
+(* [prepare h] = AccountDB.Prepare (new tx hash, fresh access list and transient storage; journal, revision
+   stack and nextRevisionID untouched, there is no Finalise between transactions).  After ANY sequence of
+   guarded transactions (each with its own nested brackets, kept and reverted, however many snapshots each
+   took) and a further Prepare: Snapshot, any guarded program, RevertToSnapshot restores the state at the
+   snapshot — the revert unwinds exactly what was done since THAT snapshot, journal and revision stack of
+   the earlier transactions included untouched. *)
+Theorem C04_revert_restores_across_prepare : forall ex tch tr cs tok th txs h body,
+  txs_ok ex tch txs -> Forall (item_ok ex tch) body ->
+  let s := prepare h (run_txs txs (fresh tr cs tok true th)) in
+  sim ex (after_revert body s) s /\ journal (after_revert body s) = journal s /\ revs (after_revert body s) = revs s.
+Proof. exact revert_restores_across_prepare. Qed.
+Print Assumptions C04_revert_restores_across_prepare.
+
+(* revision ids keep counting across Prepare, and the id Snapshot returns differs from every live id: an id
+   names one live revision for the whole life of the AccountDB between Finalise calls *)
+Theorem C04_revision_ids_keep_counting : forall h s,
+  nextrev (prepare h s) = nextrev s /\ revs (prepare h s) = revs s /\ journal (prepare h s) = journal s.
+Proof. exact prepare_keeps_revisions. Qed.
+Print Assumptions C04_revision_ids_keep_counting.
+
+Theorem C04_snapshot_id_fresh : forall s, rb s -> forall p, p ∈ revs s -> p.1 <> snd (snapshot s).
+Proof. exact snapshot_id_fresh. Qed.
+Print Assumptions C04_snapshot_id_fresh.
+
+Theorem C04_reachable_good_multi_tx : forall ex tch txs, txs_ok ex tch txs ->
+  forall s, wf_al s -> rb s -> p002 s = true ->
+  wf_al (run_txs txs s) /\ rb (run_txs txs s) /\ p002 (run_txs txs s) = true.
+Proof. exact reach_txs. Qed.
+Print Assumptions C04_reachable_good_multi_tx.
+
+(* REFUTED for the variant in which Prepare restarts the ids ([prepare_reset]): tx 1 = Snapshot (id 0, kept);
+   SetNonce(1,5).  tx 2 = Snapshot (id 0 again); SetNonce(1,7); RevertToSnapshot(0): the search lands on the
+   revision of tx 1 and unwinds it too (nonce 0 instead of 5).  With the code as it is: 5. *)
+Theorem C04_revision_id_reset_refuted :
+  observe (QNonce 1) (prepare_reset 1 (v_tx1 v_s0)) = AN 5 /\
+  observe (QNonce 1) (v_tx2 (prepare_reset 1 (v_tx1 v_s0))) = AN 0 /\
+  observe (QNonce 1) (v_tx2 (prepare 1 (v_tx1 v_s0))) = AN 5.
+Proof. exact id_reset_refuted. Qed.
+Print Assumptions C04_revision_id_reset_refuted.
 
 (* ---------- outcomes at the edges ---------- *)
 (* the model's operations are total functions; exactly one of them stands for a Go panic *)
